@@ -451,7 +451,7 @@ def replay_case(case):
 def reject_cases():
     cases = []
     for nrep in (1, 2, 3):
-        for kind in ('dup-name', 'nonstring-name', 'unsorted-idl', 'dup-idl', 'length-mismatch', 'short', 'multi-ens',
+        for kind in ('dup-name', 'nonstring-name', 'unsorted-idl', 'dup-idl', 'length-mismatch', 'length-mismatch-cancel', 'short', 'multi-ens',
                      'multi-ens-prefix', 'multi-ens-bare-prefix',
                      'names-samples-mismatch', 'idl-count-mismatch', 'decreasing-range', 'bad-idl-type'):
             for pos in ('first', 'middle', 'last'):
@@ -625,6 +625,14 @@ def run_case(case):
         cfgs[which] = sorted(c)
     elif what == 'length-mismatch':
         samples[which] = samples[which][:-1] if pos != 'first' else np.concatenate([samples[which], [0.0]])
+    elif what == 'length-mismatch-cancel':
+        # one chain has a sample too few, its neighbour one too many: the total number of samples equals the total of the lists
+        if nrep == 1:
+            applicable = False
+        else:
+            other = (which + 1) % nrep
+            samples[other] = np.concatenate([samples[other], samples[which][-1:]])
+            samples[which] = samples[which][:-1]
     elif what == 'short':
         cfgs[which] = cfgs[which][:4]
         samples[which] = samples[which][:4]
@@ -843,7 +851,7 @@ def main(tier, seed, jobs):
     rule = ('BFS to depth %d from %d initial register pairs over %d events per state (binary operators in both orders, scalar / '
             'ndarray partners of 8+1 kinds in both positions, **, 17 functions, reweight, correlate, merge_obs, gamma_method, '
             'least_squares, find_root, json/dobs/pickle/jackknife round trips, CObs construction and parts), states merged on '
-            'structure; plus the rejection product (13 malformed kinds x 1..3 chains x 3 positions x 5 carriers incl. unsigned integers, 6 covariance '
+            'structure; plus the rejection product (14 malformed kinds incl. length mismatches that cancel in the total x 1..3 chains x 3 positions x 6 carriers incl. unsigned and narrow integers, 6 covariance '
             'kinds x 3 dimensions, 6 malformed import_jackknife / import_bootstrap requests x 3 lengths; 7 aliasing scenarios: the caller modifies idl lists / arrays, samples, names, covariance matrix, means, jackknife array after the constructor returned).  Non-trivial = every executed (not disabled) transition and every rejection request' % (
                 depth, len(init), len(all_events())))
     return engine.report('C04', tier, seed, LEVEL, tot, time.time() - t0, rule, ASSUMPTIONS, extra_cov=extra, exhaustive=True)
